@@ -144,7 +144,14 @@ impl<'a> Remote<'a> {
                 break Poll::Ready(None);
             }
 
+            #[cfg(compio_verif)]
+            crate::verif::sched_point(crate::verif::REMOTE_BEFORE_SETTING_WAKER);
             state = self.header().state.start_setting_waker();
+
+            #[cfg(compio_verif)]
+            if state.has_result() || state.is_cancelled() {
+                crate::verif::sched_point(crate::verif::REMOTE_ABORT_SETTING_WAKER);
+            }
 
             if state.has_result() {
                 // It's waiting for us to stop. Finish setting waker here.
